@@ -282,10 +282,30 @@ func SigScripts(t *rapid.T) SigProgram {
 			dummyNonEmpty = rapid.IntRange(0, 5).Draw(t, "dummy_nonempty") == 0
 		}
 	}
+	// decorations of the unlocking script: an OP_CODESEPARATOR as its first instruction or after
+	// its first push, and (after genesis) a top-level OP_RETURN ending it. None of them may
+	// influence the locking script's script code: separator state is per script.
+	uSepFirst := rapid.IntRange(0, 7).Draw(t, "u_sep_first") == 0
+	uSepMid := rapid.IntRange(0, 11).Draw(t, "u_sep_mid") == 0
+	uReturn := flags.Has(interp.FlagAfterGenesis) && rapid.IntRange(0, 7).Draw(t, "u_return") == 0
+	var uJunk []byte
+	if uReturn {
+		uJunk = gen.Bytes(t, rapid.IntRange(0, 3).Draw(t, "u_junk_n"), "u_junk")
+		desc += "+unlock-return"
+	}
+	if uSepFirst || uSepMid {
+		desc += "+unlock-sep"
+	}
 	build = func(sigs map[int][]byte) []byte {
 		var u []byte
+		if uSepFirst {
+			u = append(u, 0xab)
+		}
 		pk := 0
-		for _, e := range unlockOrder {
+		for n, e := range unlockOrder {
+			if n == 1 && uSepMid {
+				u = append(u, 0xab)
+			}
 			switch {
 			case e == -1:
 				if dummyNonEmpty {
@@ -299,6 +319,10 @@ func SigScripts(t *rapid.T) SigProgram {
 			default:
 				u = append(u, Push(sigs[e], 0)...)
 			}
+		}
+		if uReturn {
+			u = append(u, 0x6a)
+			u = append(u, uJunk...)
 		}
 		return u
 	}
